@@ -343,7 +343,7 @@ def make_e_snap(params, part, nparts):
         ck = pick(k, 3) + 1
         assume(ck < cL)
         cm = pick(m, len(TP.SNAP_MUT))
-        assume((cL * 5 + cm) % nparts == part)
+        assume((cL * len(TP.SNAP_MUT) + cm) % nparts == part)
         prog = [cL, ck, cm, pick(w, 2)]
         reached(tuple(prog), dict(program=prog))
         native(run, prog)
